@@ -100,8 +100,10 @@ Fixpoint read_chunk_list (fuel : nat) (s : bytes) (acc : list bytes) {struct fue
    absolute-form URL.RequestURI() = path?query ("/" if empty) provided no byte needs re-escaping *)
 Definition abs_noescape_byte (b : Z) : bool :=
   is_alpha b || is_digit b || existsb (Z.eqb b) [45;46;95;126;36;38;43;44;47;58;59;61;64;33;39;40;41;42;63].
-Definition h1_ruri (t : bytes) : option bytes :=
-  if is_prefix s_httpcss t then
+Definition h1_ruri (m t : bytes) : option bytes :=
+  if is_origin t then Some t
+  else if bytes_eqb m s_connect then Some t          (* URL.Path = "": the authority is written *)
+  else if is_prefix s_httpcss t then
     let r := skipn 7 t in
     let p := match index_byte 47 r with Some i => skipn i r | None => [] end in
     if forallb abs_noescape_byte p then Some (match p with [] => [47] | _ => p end) else None
@@ -115,11 +117,11 @@ Definition front_http1 (s : bytes) : Z + wreq :=
     | inl 98 => inl 98
     | inl _ => inl 1
     | inr m =>
-      match h1_ruri (r_target m) with
+      match h1_ruri (r_method m) (r_target m) with
       | None => inl 98
       | Some ruri =>
         let fs := bfe_final_fields (r_fields m) (r_framing m) in
-        let host := bfe_host (r_target m) (r_fields m) in
+        let host := bfe_host (r_method m) (r_target m) (r_fields m) in
         match r_framing m with
         | FrChunked =>
           match read_chunk_list (length (h_rest hd)) (h_rest hd) [] with
@@ -160,14 +162,11 @@ Definition merge_cookies (h : fields) : fields :=
   end.
 (* url.ParseRequestURI on :path, modelled classes: 1 accepted, 0 not modelled, 3 rejected *)
 Definition path_class (p : bytes) : Z :=
-  match p with
+  if is_origin p then origin_class p
+  else match p with
   | [] => 3
   | [42] => 1
-  | 47 :: 47 :: _ => 0
-  | 47 :: r =>
-    if existsb (fun b => (b <? 32) || (b =? 127)) r then 3
-    else if existsb (Z.eqb 37) r then 0 else 1
-  | _ => 0
+  | _ => if existsb (Z.eqb 58) p then 0 else 3
   end.
 Definition pseudo_value (name : bytes) (fs : fields) : bytes := get_first name fs.
 Definition p_method : bytes := [58;109;101;116;104;111;100].
@@ -212,7 +211,16 @@ Definition front_h2 (fs : fields) : Z + wreq :=
     let p := pseudo_value p_path fs in
     let sc := pseudo_value p_scheme fs in
     let au := pseudo_value p_authority fs in
-    if bytes_eqb m s_connect then inl 98
+    if bytes_eqb m s_connect then
+      (* CONNECT: no :path, no :scheme, an :authority; URL = {Host: authority}, RequestURI = authority *)
+      match p, sc, au with
+      | [], [], _ :: _ =>
+        inr {| w_method := m; w_ruri := au; w_host := au;
+               w_fields := del_key s_trailer (merge_cookies (del_expect
+                             (canon_fields (filter (fun kv => negb (is_pseudo (fst kv))) fs))));
+               w_body := WNone |}
+      | _, _, _ => inl 1
+      end
     else if match m with [] => true | _ => false end || match p with [] => true | _ => false end ||
             negb (bytes_eqb sc s_http || bytes_eqb sc s_https) then inl 1
     else
@@ -268,6 +276,40 @@ Definition front_spdy (ps : fields) : Z + wreq :=
           let h2 := del_key p_scheme (del_key p_host (del_key p_version (del_key p_path (del_key p_method h1)))) in
           inr {| w_method := m; w_ruri := p; w_host := host; w_fields := h2 ++ [(s_host, host)]; w_body := WNone |}
         end
+  end.
+
+(* ---------- HTTP/2 and SPDY requests with a body (HEADERS / SYN_STREAM without END_STREAM / FLAG_FIN, then
+   the body bytes and end of stream) ----------
+   newWriterAndRequest: HEAD with an open body is rejected; ContentLength = the Content-Length header if
+   present, else -1 (=> Request.write re-frames the body as one chunk).  Modelled when a Content-Length
+   header, if present, is the decimal length of the body (the servers enforce that on DATA frames, outside
+   this function) and, for HTTP/2, no Trailer header is present (map-ordered Trailer line); else code 98. *)
+Definition s_head : bytes := [72;69;65;68].
+Definition set_body (r : wreq) (b : wbody) : wreq :=
+  {| w_method := w_method r; w_ruri := w_ruri r; w_host := w_host r; w_fields := w_fields r; w_body := b |}.
+Definition attach_body (trailer : bool) (r : wreq) (body : option bytes) : Z + wreq :=
+  match body with
+  | None => inr r
+  | Some b =>
+    if bytes_eqb (w_method r) s_head then inl 1
+    else if trailer then inl 98
+    else match get_all s_cl (w_fields r) with
+         | [] => inr (set_body r (WChunked [b]))
+         | v :: _ =>
+           if bytes_eqb v (dec_of_Z (blen b))
+           then inr (set_body r (if blen b =? 0 then WNone else WLen (blen b) b))
+           else inl 98
+         end
+  end.
+Definition front_h2b (fs : fields) (body : option bytes) : Z + wreq :=
+  match front_h2 fs with
+  | inl c => inl c
+  | inr r => attach_body (has_key s_trailer (canon_fields (filter (fun kv => negb (is_pseudo (fst kv))) fs))) r body
+  end.
+Definition front_spdyb (ps : fields) (body : option bytes) : Z + wreq :=
+  match front_spdy ps with
+  | inl c => inl c
+  | inr r => attach_body false r body
   end.
 
 (* ---------- strict reference parser for the written bytes ---------- *)
